@@ -6,6 +6,7 @@ Lemmas/Flv*.lean.
 -/
 import IpcHub.Lemmas.FlvMux
 import IpcHub.Model.FlvInst
+import IpcHub.Lemmas.FlvTimeline
 namespace IpcHub.Props.C08
 open IpcHub.Flv IpcHub.FlvSpec IpcHub.FlvLemmas
 
@@ -372,5 +373,24 @@ theorem c08_seqhdr_witness :
     (muxBytes pinnedCfg vm am [] 1 frames).map outcome = some (true, false, some 1) ∧
     (muxBytes fixedCfg vm am [] 1 frames).map outcome = some (false, true, some 4) := by
   set_option maxRecDepth 100000 in decide
+
+/-- The joiner's timeline at the current tree's writer configuration: when a consumer joins an
+    FLV stream whose cached GOP starts with `g0`, the first tag its writer is handed becomes the
+    time base and every replayed header tag and `g0` go on the wire with timestamp 0 (the cache
+    side of this statement is `c02_flv_timeline_starts_at_zero`). -/
+theorem c08_joiner_timeline_zero (gop : Bool) (tags : List IpcHub.FlvCacheM.FTag)
+    (g0 : IpcHub.FlvCacheM.FTag) (rest : List IpcHub.FlvCacheM.FTag)
+    (hg : (IpcHub.FlvCacheM.cacheAfter gop tags).gop = g0 :: rest) :
+    ∀ t ∈ (IpcHub.FlvCacheM.cacheAfter gop tags).headers ++ [g0],
+      IpcHub.FlvCacheM.wireTs genCfg { delta := UInt32.ofNat g0.ts, started := true }
+        (IpcHub.FlvCacheM.toTag t) = 0 := by
+  intro t ht
+  apply IpcHub.FlvCacheM.same_ts_zero
+  simp only [List.mem_append, List.mem_singleton] at ht
+  rcases ht with ht | rfl
+  · simp only [IpcHub.FlvCacheM.FCache.headers, List.mem_map] at ht
+    obtain ⟨t', _, rfl⟩ := ht
+    simp [IpcHub.FlvCacheM.toTag, IpcHub.FlvCacheM.restamp, IpcHub.FlvCacheM.FCache.initTs, hg]
+  · rfl
 
 end IpcHub.Props.C08
